@@ -226,19 +226,35 @@ pub fn record(corpus_dir: &str, patterns_file: &str, mode: &str, per_program: us
                 flags.push(d.run(&canon).ok().map(|s| s.into_iter().collect()));
             }
             programs += 1;
-            for i in 0..per_program {
+            // very long programs (the generated deep chain): the fixed layouts and one rotating pattern are enough
+            let per = if n > 1200 { per_program.min(5) } else { per_program };
+            for i in 0..per {
                 // a few fixed, important layouts first, then the rotating TLC patterns
                 let (pattern, trailing): (Vec<Vec<u8>>, Vec<u8>) = match i {
                     0 => (vec![vec![1]], vec![]),           // everything on one line, no final newline
                     1 => (vec![vec![4]], vec![4]),          // CRLF everywhere
                     2 => (vec![vec![3, 3], vec![1]], vec![]), // blank lines, unterminated last line
+                    3 => (vec![vec![3]], vec![]),           // a line feed between words, NOTHING next to punctuation (see below): `}++j`
                     _ => {
                         cursor = (cursor + 1) % pats.len();
                         used.insert(cursor);
                         (pats[cursor].clone(), if i % 2 == 0 { vec![] } else { vec![3] })
                     }
                 };
-                let gaps = expand(&pattern, &ctoks, trailing, injective);
+                let mut gaps = expand(&pattern, &ctoks, trailing, injective);
+                if i == 3 {
+                    // drop the blank wherever a bracket, brace, parenthesis, semicolon or comma stands on either side
+                    let glue = |c: char| "(){}[];,".contains(c);
+                    for j in 1..n {
+                        let (pa, pb) = (ctoks.spans[j - 1], ctoks.spans[j]);
+                        let last = canon[pa.0..pa.1].chars().last().unwrap_or(' ');
+                        let first = canon[pb.0..pb.1].chars().next().unwrap_or(' ');
+                        let near_pragma = ctoks.pragma_value[j] || ctoks.pragma_value[j - 1];
+                        if !near_pragma && (glue(last) || glue(first)) {
+                            gaps[j] = vec![];
+                        }
+                    }
+                }
                 // the gap between the comparators of a version range is re-laid too (kept, tab, line feed, mixed)
                 let pragma_ws = [None, Some("\t"), Some("\n"), Some("  \n\t")][i % 4];
                 let text = render_with(&canon, &ctoks, &gaps, false, pragma_ws);
